@@ -263,13 +263,33 @@ def py_file(rng, idx):
             ms = rng.sample(["__init__", "save", "find", "run", "süß", "recalculate_outstanding_balance_for_all_customers_in_region"], rng.choice([0, 1, 2, 3]))
             if not ms:
                 out.append("    pass")
-            for m in ms:
+            # an inner class somewhere among the methods (Django `class Meta:`, nested exceptions, ...): listed as a class of its
+            # own with its methods; the methods after it still belong to the outer class
+            inner = None
+            inner_at = rng.randrange(len(ms) + 1) if rng.random() < 0.25 else -1
+            for mi, m in enumerate(ms + [None]):
+                if mi == inner_at:
+                    iname = rng.choice(["Meta", "Inner", "NotFound"]) + "Of" + name      # unique in the module
+                    out.append("    class %s%s:" % (iname, rng.choice(["", "(Exception)", "(object)"])))
+                    ims = rng.sample(["check", "render", "__str__"], rng.choice([0, 1, 2]))
+                    imethods = []
+                    if not ims:
+                        out.append("        %s" % rng.choice(["pass", "ordering = ['id']"]))
+                    for im in ims:
+                        lines, mdecos, nested = py_def(rng, im, "        ", nested_ok=False)
+                        out += lines
+                        imethods.append({"name": im, "decos": mdecos, "nested": nested})
+                    inner = {"name": iname, "decos": [], "methods": imethods, "at": mi}
+                if m is None:
+                    break
                 lines, mdecos, nested = py_def(rng, m, "    ")
                 out += lines
                 methods.append({"name": m, "decos": mdecos, "nested": nested})
                 if rng.random() < 0.3:
                     out.append("")
-            classes.append({"name": name, "decos": [{"name": d, "args": a or []} for d, a in decos], "methods": methods})
+            if inner is not None:
+                classes.append({"name": inner["name"], "decos": [], "methods": inner["methods"], "innerOf": name})
+            classes.append({"name": name, "decos": [{"name": d, "args": a or []} for d, a in decos], "methods": methods, "inner": inner})
         else:
             lines, decos, nested = py_def(rng, name, "")
             out += lines
@@ -294,8 +314,14 @@ def py_file(rng, idx):
         if kind == "class":
             k = [c for c in classes if c["name"] == name][0]
             evs.append({"e": "enterClass", "name": name, "decos": k["decos"]})
-            for m in k["methods"]:
-                fn_events(m)
+            for mi, m in enumerate(k["methods"] + [None]):
+                if k.get("inner") and k["inner"]["at"] == mi:
+                    evs.append({"e": "enterClass", "name": k["inner"]["name"], "decos": []})
+                    for im in k["inner"]["methods"]:
+                        fn_events(im)
+                    evs.append({"e": "exitClass"})
+                if m is not None:
+                    fn_events(m)
             evs.append({"e": "exitClass"})
         else:
             fn_events([f for f in funcs if f["name"] == name][0])
@@ -318,6 +344,18 @@ def gen(rng, tier):
                 files["tools/gen.go"] = "package tools\n\nfunc Gen() {}\n"      # a Go file in a Python project: not a Python module
             sh.append({"op": lang, "files": files, "truth": truth})
         shards.append(sh)
+    # real-world sources, when they are on this machine (the Go toolchain's own source tree in the module cache, the Python
+    # standard library): only "no crash on a file the parser accepts" is judged for them
+    import glob
+    import os
+    gos = sorted(f for f in glob.glob("/root/go/pkg/mod/golang.org/toolchain@*/src/**/*.go", recursive=True) if os.path.getsize(f) < 80000)
+    pys = sorted(f for f in glob.glob("/root/.pyenv/versions/*/lib/python3*/**/*.py", recursive=True) if os.path.getsize(f) < 80000)
+    ng, npy = (120, 80) if tier == "quick" else (3000, 1500)
+    rng.shuffle(gos)
+    rng.shuffle(pys)
+    corpus = [{"op": "gocorpus", "path": f} for f in gos[:ng]] + [{"op": "pycorpus", "path": f} for f in pys[:npy]]
+    for i in range(0, len(corpus), 100):
+        shards.append(corpus[i:i + 100])
     return shards
 
 
@@ -443,7 +481,11 @@ def dedup(ds):
 
 def oracle(case, out, raw):
     if out is None or "panic" in out:
-        return [("panic", "%s front-end panicked at %s: %s" % (case.get("op"), (raw or {}).get("site"), (raw or {}).get("panic")))]
+        return [("panic", "%s front-end panicked at %s: %s%s" % (case.get("op"), (raw or {}).get("site"), (raw or {}).get("panic"),
+                                                               (" on " + case["path"]) if "path" in case else ""))]
+    if case.get("op") in ("gocorpus", "pycorpus"):
+        st = (out or {}).get("status") or {}
+        return [("corpus-unserialisable", "%s: %s" % (case["path"], st["unserialisable"]))] if "unserialisable" in st else []
     ds = []
     by = {c["File"]: c for c in out["containers"]}
     for path, t in case["truth"].items():
@@ -476,11 +518,20 @@ def vfns(fs):
 
 
 def view(o):
+    if isinstance(o, dict) and "corpus" in o:
+        return {"corpus": True}
+    return view_(o)
+
+
+def view_(o):
     """what the models cover: names, fields, parameters, decorators, (receiver, callee) of call statements, imports; not the call-target resolution of the Go front-end"""
     if not isinstance(o, dict) or "containers" not in o:
         return o
     out = []
     for c in o["containers"]:
+        if "File" not in c:          # the model's verdict for a file on which the listener dereferences nil
+            out.append(c)
+            continue
         out.append({"File": c["File"], "PackageName": c["PackageName"],
                     "Imports": [i if isinstance(i, list) else [i["Source"], i["AsName"], i["UsageName"]] for i in c["Imports"]],
                     "DataStructures": [{"NodeName": d["NodeName"], "Package": d["Package"], "InOutProperties": vprops(d["InOutProperties"]), "Functions": vfns(d["Functions"]),
